@@ -215,6 +215,8 @@ def run(ctx):
             rep.corr('sqlhist', case, real, {'table': sorted((canon.norm_row(r) for r in last['table']), key=lambda r_: json.dumps(r_, sort_keys=True)), 'flags': last['flags']})
     else:
         rep.disagreements.append({'op': 'sqlhist', 'case': 'driver unavailable', 'real': None, 'model': None})
+    from .. import pycorr
+    pycorr.run(ctx)
 
     def search(disagreements):
         rng2 = ctx.rng('search')
